@@ -54,6 +54,68 @@ func scenarios(lg *sim.Log, seed int64) int {
 		step(Act{A: "Block", Y: 5})
 		n++
 	}
+	// crossed: one owner holds vaults on several products; every owner message is sent with the vault id of one product and the
+	// product id of another one of HIS products (ids that do not belong together); then a dust deposit-and-draw (the proportional
+	// draw truncates to zero) on a vault that a price move has left below its minimum ratio, and once more with the feed switched off.
+	for k := 0; k < 2; k++ {
+		cfg := configFor(int(seed)+k, rng)
+		cfg.DecC, cfg.DecA, cfg.DecS = 1, 1, 1
+		cfg.Decoy = k == 1
+		cfg.FundColl = 200000
+		w := Setup(cfg)
+		run := fmt.Sprintf("scn:crossed:%d:%d", seed, k)
+		par := rootNode(lg, w, run)
+		root := par
+		step := func(a Act) Res {
+			rs := w.Do(a)
+			par, _ = w.Record(lg, par, run, root, a, rs)
+			return rs
+		}
+		p1, p2, p4 := w.Prods[0], w.Prods[1], w.Prods[3]
+		step(Act{A: "Create", U: "u1", P: p1.ID, X: 300, Y: 100})
+		step(Act{A: "Create", U: "u1", P: p2.ID, X: 300, Y: 90})
+		step(Act{A: "Create", U: "u1", P: p4.ID, X: 300, Y: 80})
+		step(Act{A: "Create", U: "u2", P: p1.ID, X: 300, Y: 70})
+		ids := map[uint64]uint64{}
+		for _, v := range w.vaultsView() {
+			if v.owner == "u1" {
+				ids[v.prod] = v.id
+			}
+		}
+		for _, pr := range [][2]uint64{{p1.ID, p4.ID}, {p4.ID, p1.ID}, {p1.ID, p2.ID}, {p2.ID, p4.ID}} {
+			for _, nm := range []string{"Deposit", "Withdraw", "Draw", "Repay", "DepositDraw", "Close"} {
+				// on a branch: a wrongly accepted message must not derail the rest of the scenario
+				c := w.Fork()
+				a := Act{A: nm, U: "u1", V: ids[pr[0]], P: pr[1], X: 10}
+				rs := c.Do(a)
+				c.Record(lg, par, run, root, a, rs)
+			}
+		}
+		// vault at its minimum ratio, then the collateral price falls: unsafe, not yet swept (no block in between)
+		// debt below the collateral count (so that debt * 1 / collateral truncates to zero) yet unsafe once the price has halved
+		step(Act{A: "Create", U: "u3", P: p1.ID, X: 240, Y: 200})
+		step(Act{A: "Price", D: "ucm", Y: 1, On: true})
+		var v3 uint64
+		for _, v := range w.vaultsView() {
+			if v.owner == "u3" {
+				v3 = v.id
+			}
+		}
+		for _, x := range []int64{1, 2} {
+			c := w.Fork()
+			a := Act{A: "DepositDraw", U: "u3", P: p1.ID, V: v3, X: x}
+			rs := c.Do(a)
+			c.Record(lg, par, run, root, a, rs)
+		}
+		step(Act{A: "Price", D: "ucm", Y: 2, On: false})
+		for _, x := range []int64{1, 2} {
+			c := w.Fork()
+			a := Act{A: "DepositDraw", U: "u3", P: p1.ID, V: v3, X: x}
+			rs := c.Do(a)
+			c.Record(lg, par, run, root, a, rs)
+		}
+		n++
+	}
 	// bonusband: two externally initiated auctions of one collateral denom with an auction bonus; the price of the first one
 	// is walked down second by second, and at every second a closing (over-sized) bid is tried on a branch: somewhere on the
 	// way the collateral left covers the bid but not bid + bonus (the bidder may never be handed more than was seized).
